@@ -390,6 +390,52 @@ func c07HeaderMatrix() []c07HdrPos {
 	}
 }
 
+// c07CaseVariants: the value with its letters in other cases — the whole value (upper, lower,
+// swapped) and every maximal run of letters on its own (upper, lower, title), without duplicates
+// and without the value itself.
+func c07CaseVariants(value string) []string {
+	seen := map[string]bool{value: true}
+	var out []string
+	add := func(v string) {
+		if !seen[v] {
+			seen[v] = true
+			out = append(out, v)
+		}
+	}
+	swap := func(v string) string {
+		b := []byte(v)
+		for i, c := range b {
+			switch {
+			case c >= 'a' && c <= 'z':
+				b[i] = c - 32
+			case c >= 'A' && c <= 'Z':
+				b[i] = c + 32
+			}
+		}
+		return string(b)
+	}
+	add(strings.ToUpper(value))
+	add(strings.ToLower(value))
+	add(swap(value))
+	isL := func(c byte) bool { return c >= 'a' && c <= 'z' || c >= 'A' && c <= 'Z' }
+	for i := 0; i < len(value); {
+		if !isL(value[i]) {
+			i++
+			continue
+		}
+		j := i
+		for j < len(value) && isL(value[j]) {
+			j++
+		}
+		run := value[i:j]
+		add(value[:i] + strings.ToUpper(run) + value[j:])
+		add(value[:i] + strings.ToLower(run) + value[j:])
+		add(value[:i] + strings.ToUpper(run[:1]) + strings.ToLower(run[1:]) + value[j:])
+		i = j
+	}
+	return out
+}
+
 func c07HdrStream(hp c07HdrPos, value string) []byte {
 	st := hp.status
 	if st == "" {
@@ -405,7 +451,7 @@ func c07HdrStream(hp c07HdrPos, value string) []byte {
 // TestVerif_C07_h1wire: the matrix through real clients over loopback TCP / TLS.
 func TestVerif_C07_h1wire(t *testing.T) {
 	s := verifh.New(t, "C07", "h1wire",
-		"byte-position matrix over the wire: (a) the h1pos streams (all 256 byte values at field-name positions incl. 1xx and trailer names, stratified elsewhere in the quick tier: all controls, DEL, UTF-8 class edges, every delimiter, digit/hex/alpha edges + a seed-dependent eighth; thorough: all) and (b) one byte inserted at EVERY offset of typical Alt-Svc, Content-Type (charset), Content-Encoding, Content-Disposition, Location, Set-Cookie, WWW-Authenticate (digest), Retry-After, Content-Range, Connection, Trailer, Etag values (byte values as before) and (c) body positions read by the charset sniffer when Content-Type has no charset (all 256 values as first byte / after partial BOMs, one byte inserted at every offset of <meta charset>, <meta http-equiv> and <?xml encoding?> declarations), each under the option sets that react to that header (auto-decode, auto-decompress, digest auth, download, result unmarshalling, dump, HTTP/3 enabled over TLS, everything+retry); real client over loopback; oracle: the call returns response-or-error within 15 s, no panic in the caller; a panic in a background goroutine kills the lane process and bin/check reports the running case; every case non-trivial")
+		"byte-position matrix over the wire: (a) the h1pos streams (all 256 byte values at field-name positions incl. 1xx and trailer names, stratified elsewhere in the quick tier: all controls, DEL, UTF-8 class edges, every delimiter, digit/hex/alpha edges + a seed-dependent eighth; thorough: all) and (b) one byte inserted at EVERY offset of typical Alt-Svc, Content-Type (charset), Content-Encoding, Content-Disposition, Location, Set-Cookie, WWW-Authenticate (digest), Retry-After, Content-Range, Connection, Trailer, Etag values (byte values as before), (d) case variants of those values (whole value upper / lower / swapped; each alphabetic run alone in upper / lower / title case) and (c) body positions read by the charset sniffer when Content-Type has no charset (all 256 values as first byte / after partial BOMs, one byte inserted at every offset of <meta charset>, <meta http-equiv> and <?xml encoding?> declarations), each under the option sets that react to that header (auto-decode, auto-decompress, digest auth, download, result unmarshalling, dump, HTTP/3 enabled over TLS, everything+retry); real client over loopback; oracle: the call returns response-or-error within 15 s, no panic in the caller; a panic in a background goroutine kills the lane process and bin/check reports the running case; every case non-trivial")
 	peer := newC07Peer(t)
 	defer peer.closeAll()
 	plainBase := "http://" + peer.ln.Addr().String()
@@ -544,6 +590,27 @@ func TestVerif_C07_h1wire(t *testing.T) {
 					}
 					runOne(byName[on], stream, fmt.Sprintf("%s: byte 0x%02x inserted at offset %d -> %q", hp.header, b, off, value), "h1wire-hdr")
 				}
+			}
+		}
+	}
+	// (d) round 5: CASE variants of every token in those header values (whole value upper / lower /
+	// swapped, and each alphabetic run alone in upper / lower / title case): the comparisons the
+	// client makes on tokens (encodings, charset names, digest algorithm / qop / scheme, cookie and
+	// disposition attributes, connection options) are not all case-insensitive in the same way, and
+	// two look-ups of one token must agree
+	for _, hp := range c07HeaderMatrix() {
+		for vi, value := range c07CaseVariants(hp.value) {
+			os := hp.opts
+			if !verifh.Thorough() && hp.thin > 1 && vi%hp.thin != 0 {
+				continue
+			}
+			stream := c07HdrStream(hp, value)
+			for _, on := range os {
+				s.Count("case-variant:" + hp.header)
+				if hp.fresh {
+					mk(byName[on])
+				}
+				runOne(byName[on], stream, fmt.Sprintf("%s: case variant %q of %q", hp.header, value, hp.value), "h1wire-case")
 			}
 		}
 	}
